@@ -8,15 +8,20 @@ pub proof fn lemma_r3s_lin(ct: real, p: R3, q: R3) ensures r3a(r3s(ct, p), r3s(c
 pub proof fn lemma_div_scale(ct: real, x: real, e: real) requires ct > 0real, e != 0real ensures (ct * x) / (ct * e) == x / e, ct * e != 0real {
     assert((ct * x) / (ct * e) == x / e && ct * e != 0real) by(nonlinear_arith) requires ct > 0real, e != 0real;
 }
+/// the two factor sets read the same for every key of carrier c (as real triples)
+pub open spec fn fp_same(w: Seq<Factor>, w2: Seq<Factor>, c: Carrier) -> bool {
+    forall|s: Source, d: Dest, st: Step| #[trigger] has_fp(w2, c, s, d, st) == has_fp(w, c, s, d, st) && fp(w2, c, s, d, st) == fp(w, c, s, d, st)
+}
 pub open spec fn mvalf_rel(m: Map<ProdSource, f32>, m2: Map<ProdSource, f32>, ct: real) -> bool {
     m2.dom() =~= m.dom() && forall|s: ProdSource| #[trigger] mvalf(m2, s) == ct * mvalf(m, s)
 }
 /// the average export factor (weights = share of each source in the exported energy) is homogeneous of degree 0
-pub proof fn lemma_favg_scale(w: Seq<Factor>, c: Carrier, m: Map<ProdSource, f32>, m2: Map<ProdSource, f32>, e: real, ct: real, d: Dest, st: Step)
-    requires ct > 0real, e != 0real, mvalf_rel(m, m2, ct),
-    ensures favg(w, c, m2, ct * e, d, st) == favg(w, c, m, e, d, st), favg_ok(w, c, m2, d, st) == favg_ok(w, c, m, d, st),
+pub proof fn lemma_favg_scale(w: Seq<Factor>, w2: Seq<Factor>, c: Carrier, m: Map<ProdSource, f32>, m2: Map<ProdSource, f32>, e: real, ct: real, d: Dest, st: Step)
+    requires ct > 0real, e != 0real, mvalf_rel(m, m2, ct), fp_same(w, w2, c),
+    ensures favg(w2, c, m2, ct * e, d, st) == favg(w, c, m, e, d, st), favg_ok(w2, c, m2, d, st) == favg_ok(w, c, m, d, st),
 {
-    assert forall|src: ProdSource| favg_term(w, c, m2, ct * e, d, st, src) == favg_term(w, c, m, e, d, st, src) by {
+    assert forall|src: ProdSource| favg_term(w2, c, m2, ct * e, d, st, src) == favg_term(w, c, m, e, d, st, src) by {
+        assert(has_fp(w2, c, ps_source(src), d, st) == has_fp(w, c, ps_source(src), d, st) && fp(w2, c, ps_source(src), d, st) == fp(w, c, ps_source(src), d, st));
         if m.contains_key(src) {
             assert(m2.contains_key(src));
             assert(mvalf(m2, src) == ct * mvalf(m, src));
@@ -24,6 +29,13 @@ pub proof fn lemma_favg_scale(w: Seq<Factor>, c: Carrier, m: Map<ProdSource, f32
         } else { assert(!m2.contains_key(src)); }
     }
     assert forall|src: ProdSource| m2.contains_key(src) == m.contains_key(src) by {}
+    assert forall|src: ProdSource| #[trigger] has_fp(w2, c, ps_source(src), d, st) == has_fp(w, c, ps_source(src), d, st) by {}
+    if favg_ok(w, c, m, d, st) {
+        assert forall|src: ProdSource| m2.contains_key(src) implies #[trigger] has_fp(w2, c, ps_source(src), d, st) by { assert(m.contains_key(src)); assert(has_fp(w, c, ps_source(src), d, st)); }
+    }
+    if favg_ok(w2, c, m2, d, st) {
+        assert forall|src: ProdSource| m.contains_key(src) implies #[trigger] has_fp(w, c, ps_source(src), d, st) by { assert(m2.contains_key(src)); assert(has_fp(w2, c, ps_source(src), d, st)); }
+    }
 }
 pub open spec fn we_rel(x: WeightedEnergy, y: WeightedEnergy, ct: real) -> bool {
     &&& r3v(y.del_grid) == r3s(ct, r3v(x.del_grid)) && r3v(y.del_onst) == r3s(ct, r3v(x.del_onst)) && r3v(y.del_cgn) == r3s(ct, r3v(x.del_cgn)) && r3v(y.del) == r3s(ct, r3v(x.del))
@@ -47,26 +59,26 @@ pub proof fn lemma_we_inputs(a: Run, b: Run, ct: real)
     requires annual_rel(a, b, ct), doms_same_r(a, b),
     ensures we_inputs_rel(a, b, ct),
 {}
-pub proof fn lemma_we_exp_parts(w: Seq<Factor>, c: Carrier, a: Run, b: Run, ct: real)
-    requires ct > 0real, we_inputs_rel(a, b, ct),
+pub proof fn lemma_we_exp_parts(w: Seq<Factor>, w2: Seq<Factor>, c: Carrier, a: Run, b: Run, ct: real)
+    requires ct > 0real, we_inputs_rel(a, b, ct), fp_same(w, w2, c),
     ensures
-        we_exp_nepus_a(w, c, b.exp) == r3s(ct, we_exp_nepus_a(w, c, a.exp)), we_exp_grid_a(w, c, b.exp) == r3s(ct, we_exp_grid_a(w, c, a.exp)),
-        we_exp_nepus_ab(w, c, b.exp) == r3s(ct, we_exp_nepus_ab(w, c, a.exp)), we_exp_grid_ab(w, c, b.exp) == r3s(ct, we_exp_grid_ab(w, c, a.exp)),
-        we_exp_a(w, c, b.exp) == r3s(ct, we_exp_a(w, c, a.exp)), we_exp_ab(w, c, b.exp) == r3s(ct, we_exp_ab(w, c, a.exp)),
+        we_exp_nepus_a(w2, c, b.exp) == r3s(ct, we_exp_nepus_a(w, c, a.exp)), we_exp_grid_a(w2, c, b.exp) == r3s(ct, we_exp_grid_a(w, c, a.exp)),
+        we_exp_nepus_ab(w2, c, b.exp) == r3s(ct, we_exp_nepus_ab(w, c, a.exp)), we_exp_grid_ab(w2, c, b.exp) == r3s(ct, we_exp_grid_ab(w, c, a.exp)),
+        we_exp_a(w2, c, b.exp) == r3s(ct, we_exp_a(w, c, a.exp)), we_exp_ab(w2, c, b.exp) == r3s(ct, we_exp_ab(w, c, a.exp)),
         (rv(b.exp.an) == 0real) == (rv(a.exp.an) == 0real),
 {
     let e = rv(a.exp.an);
     lemma_pos_mul(ct, e); lemma_pos_mul(ct, rv(a.exp.nepus_an)); lemma_pos_mul(ct, rv(a.exp.grid_an));
     lemma_r3s_lin(ct, r3z(), r3z());
     if e != 0real {
-        lemma_favg_scale(w, c, a.exp.by_src_an@, b.exp.by_src_an@, e, ct, Dest::A_NEPB, Step::A);
-        lemma_favg_scale(w, c, a.exp.by_src_an@, b.exp.by_src_an@, e, ct, Dest::A_NEPB, Step::B);
-        lemma_favg_scale(w, c, a.exp.by_src_an@, b.exp.by_src_an@, e, ct, Dest::A_RED, Step::A);
-        lemma_favg_scale(w, c, a.exp.by_src_an@, b.exp.by_src_an@, e, ct, Dest::A_RED, Step::B);
-        assert(f_nepus(w, c, b.exp, Step::A) == f_nepus(w, c, a.exp, Step::A));
-        assert(f_nepus(w, c, b.exp, Step::B) == f_nepus(w, c, a.exp, Step::B));
-        assert(f_grid(w, c, b.exp, Step::A) == f_grid(w, c, a.exp, Step::A));
-        assert(f_grid(w, c, b.exp, Step::B) == f_grid(w, c, a.exp, Step::B));
+        lemma_favg_scale(w, w2, c, a.exp.by_src_an@, b.exp.by_src_an@, e, ct, Dest::A_NEPB, Step::A);
+        lemma_favg_scale(w, w2, c, a.exp.by_src_an@, b.exp.by_src_an@, e, ct, Dest::A_NEPB, Step::B);
+        lemma_favg_scale(w, w2, c, a.exp.by_src_an@, b.exp.by_src_an@, e, ct, Dest::A_RED, Step::A);
+        lemma_favg_scale(w, w2, c, a.exp.by_src_an@, b.exp.by_src_an@, e, ct, Dest::A_RED, Step::B);
+        assert(f_nepus(w2, c, b.exp, Step::A) == f_nepus(w, c, a.exp, Step::A));
+        assert(f_nepus(w2, c, b.exp, Step::B) == f_nepus(w, c, a.exp, Step::B));
+        assert(f_grid(w2, c, b.exp, Step::A) == f_grid(w, c, a.exp, Step::A));
+        assert(f_grid(w2, c, b.exp, Step::B) == f_grid(w, c, a.exp, Step::B));
         lemma_r3s_assoc(ct, rv(a.exp.nepus_an), f_nepus(w, c, a.exp, Step::A));
         lemma_r3s_assoc(ct, rv(a.exp.grid_an), f_grid(w, c, a.exp, Step::A));
         lemma_r3s_assoc(ct, rv(a.exp.nepus_an), r3d(f_nepus(w, c, a.exp, Step::B), f_nepus(w, c, a.exp, Step::A)));
@@ -75,14 +87,17 @@ pub proof fn lemma_we_exp_parts(w: Seq<Factor>, c: Carrier, a: Run, b: Run, ct: 
     lemma_r3s_lin(ct, we_exp_nepus_a(w, c, a.exp), we_exp_grid_a(w, c, a.exp));
     lemma_r3s_lin(ct, we_exp_nepus_ab(w, c, a.exp), we_exp_grid_ab(w, c, a.exp));
 }
-pub proof fn lemma_we_del_parts(w: Seq<Factor>, c: Carrier, a: Run, b: Run, ct: real)
-    requires ct > 0real, we_inputs_rel(a, b, ct),
+pub proof fn lemma_we_del_parts(w: Seq<Factor>, w2: Seq<Factor>, c: Carrier, a: Run, b: Run, ct: real)
+    requires ct > 0real, we_inputs_rel(a, b, ct), fp_same(w, w2, c),
     ensures
-        we_del_grid(w, c, b.del) == r3s(ct, we_del_grid(w, c, a.del)), we_del_onst(w, c, b.del) == r3s(ct, we_del_onst(w, c, a.del)),
-        we_del_cgn(w, c, b.del) == r3s(ct, we_del_cgn(w, c, a.del)), we_del(w, c, b.del) == r3s(ct, we_del(w, c, a.del)),
+        we_del_grid(w2, c, b.del) == r3s(ct, we_del_grid(w, c, a.del)), we_del_onst(w2, c, b.del) == r3s(ct, we_del_onst(w, c, a.del)),
+        we_del_cgn(w2, c, b.del) == r3s(ct, we_del_cgn(w, c, a.del)), we_del(w2, c, b.del) == r3s(ct, we_del(w, c, a.del)),
 {
     lemma_pos_mul(ct, rv(a.del.onst_an));
     lemma_r3s_lin(ct, r3z(), r3z());
+    assert(has_fp(w2, c, Source::RED, Dest::SUMINISTRO, Step::A) == has_fp(w, c, Source::RED, Dest::SUMINISTRO, Step::A) && fgrid(w2, c) == fgrid(w, c));
+    assert(has_fp(w2, c, Source::INSITU, Dest::SUMINISTRO, Step::A) == has_fp(w, c, Source::INSITU, Dest::SUMINISTRO, Step::A)
+        && fp(w2, c, Source::INSITU, Dest::SUMINISTRO, Step::A) == fp(w, c, Source::INSITU, Dest::SUMINISTRO, Step::A));
     lemma_r3s_assoc(ct, rv(a.del.grid_an), fgrid(w, c));
     lemma_r3s_assoc(ct, rv(a.del.cgn_an), fgrid(w, c));
     lemma_r3s_assoc(ct, rv(a.del.onst_an), fp(w, c, Source::INSITU, Dest::SUMINISTRO, Step::A));
@@ -90,29 +105,31 @@ pub proof fn lemma_we_del_parts(w: Seq<Factor>, c: Carrier, a: Run, b: Run, ct: 
     lemma_r3s_lin(ct, r3a(we_del_grid(w, c, a.del), we_del_onst(w, c, a.del)), we_del_cgn(w, c, a.del));
 }
 /// THE WEIGHTING THEOREM: annual figures x ct  ==>  same Ok / Err, every weighted figure x ct (so per-carrier RER-type ratios are unchanged)
-pub proof fn thm_weights(w: Seq<Factor>, c: Carrier, k: real, a: Run, b: Run, ct: real, r: Result<WeightedEnergy>, r2: Result<WeightedEnergy>)
-    requires ct > 0real, we_inputs_rel(a, b, ct),
-             cwe_post(w, c, k, a.used, a.exp, a.del, r), cwe_post(w, c, k, b.used, b.exp, b.del, r2),
+pub proof fn thm_weights(w: Seq<Factor>, w2: Seq<Factor>, c: Carrier, k: real, a: Run, b: Run, ct: real, r: Result<WeightedEnergy>, r2: Result<WeightedEnergy>)
+    requires ct > 0real, we_inputs_rel(a, b, ct), fp_same(w, w2, c),
+             cwe_post(w, c, k, a.used, a.exp, a.del, r), cwe_post(w2, c, k, b.used, b.exp, b.del, r2),
     ensures (r is Ok) == (r2 is Ok), r is Ok ==> we_rel(r->Ok_0, r2->Ok_0, ct),
 {
-    lemma_we_exp_parts(w, c, a, b, ct);
-    lemma_we_del_parts(w, c, a, b, ct);
+    lemma_we_exp_parts(w, w2, c, a, b, ct);
+    lemma_we_del_parts(w, w2, c, a, b, ct);
     let e = rv(a.exp.an);
     lemma_pos_mul(ct, e); lemma_pos_mul(ct, rv(a.exp.nepus_an)); lemma_pos_mul(ct, rv(a.exp.grid_an)); lemma_pos_mul(ct, rv(a.del.onst_an));
     if e != 0real {
-        lemma_favg_scale(w, c, a.exp.by_src_an@, b.exp.by_src_an@, e, ct, Dest::A_NEPB, Step::A);
-        lemma_favg_scale(w, c, a.exp.by_src_an@, b.exp.by_src_an@, e, ct, Dest::A_NEPB, Step::B);
-        lemma_favg_scale(w, c, a.exp.by_src_an@, b.exp.by_src_an@, e, ct, Dest::A_RED, Step::A);
-        lemma_favg_scale(w, c, a.exp.by_src_an@, b.exp.by_src_an@, e, ct, Dest::A_RED, Step::B);
+        lemma_favg_scale(w, w2, c, a.exp.by_src_an@, b.exp.by_src_an@, e, ct, Dest::A_NEPB, Step::A);
+        lemma_favg_scale(w, w2, c, a.exp.by_src_an@, b.exp.by_src_an@, e, ct, Dest::A_NEPB, Step::B);
+        lemma_favg_scale(w, w2, c, a.exp.by_src_an@, b.exp.by_src_an@, e, ct, Dest::A_RED, Step::A);
+        lemma_favg_scale(w, w2, c, a.exp.by_src_an@, b.exp.by_src_an@, e, ct, Dest::A_RED, Step::B);
     }
-    assert(we_factors_ok(w, c, b.exp, b.del) == we_factors_ok(w, c, a.exp, a.del));
+    assert(has_fp(w2, c, Source::RED, Dest::SUMINISTRO, Step::A) == has_fp(w, c, Source::RED, Dest::SUMINISTRO, Step::A));
+    assert(has_fp(w2, c, Source::INSITU, Dest::SUMINISTRO, Step::A) == has_fp(w, c, Source::INSITU, Dest::SUMINISTRO, Step::A));
+    assert(we_factors_ok(w2, c, b.exp, b.del) == we_factors_ok(w, c, a.exp, a.del));
     if r is Ok {
         let x = r->Ok_0; let y = r2->Ok_0;
         lemma_r3s_lin(ct, r3z(), r3z());
         // exp(k) = exp_a + k * exp_ab
         lemma_r3s_assoc(ct, k, we_exp_ab(w, c, a.exp));
         lemma_r3s_lin(ct, we_exp_a(w, c, a.exp), r3s(k, we_exp_ab(w, c, a.exp)));
-        assert(we_exp(w, c, b.exp, k) == r3s(ct, we_exp(w, c, a.exp, k)));
+        assert(we_exp(w2, c, b.exp, k) == r3s(ct, we_exp(w, c, a.exp, k)));
         lemma_r3s_lin(ct, we_del(w, c, a.del), we_exp_a(w, c, a.exp));
         lemma_r3s_lin(ct, we_del(w, c, a.del), we_exp(w, c, a.exp, k));
         assert(r3v(y.a) == r3s(ct, r3v(x.a)));
